@@ -63,3 +63,40 @@ cut!(cut_vec_opt_u8, Vec<Option<u8>>, 2, 32, 17);
 cut!(cut_string, String, 2, 32, 17);
 // @h cut_d2 props=C11,C05 tier=thorough kind=complete vars="v:D2, every cut k<len" allow="core::slice::index::slice_index_fail|index out of bounds|called `Result::unwrap\(\)` on an `Err` value" fns="derive:D2"
 cut!(cut_d2, D2, 0, 64, 17);
+
+/// the same with the value placed mid-stream, so that a zero-copy block is
+/// preceded by real padding (a cut can fall inside the padding, also when the
+/// sequence is empty)
+macro_rules! cut_at {
+    ($name:ident, $t:ty, $bound:expr, $cap:expr, $unw:expr, $pos0:expr) => {
+        #[kani::proof]
+        #[kani::unwind($unw)]
+        pub fn $name() {
+            let v = <$t as Sym>::sym($bound);
+            let mut sink = ArrSink::<$cap>::new();
+            let (r, _) = ser_at(&v, $pos0, &mut sink);
+            assert!(r.is_ok(), "[C01/ser.ok] serialization into an infallible sink succeeds");
+            let n = sink.len;
+            let k: usize = kani::any();
+            kani::assume($pos0 <= k && k < n);
+            let pre: Vec<u8> = sink.buf[..k].to_vec();
+
+            let mut src: &[u8] = &pre[..];
+            let mut rd = ReaderWithPos::new(&mut src);
+            let mut skip = [0u8; MAX_PREFIX];
+            let _ = rd.read_exact(&mut skip[..$pos0]);
+            match <$t>::_deserialize_full_inner(&mut rd) {
+                Ok(_) => assert!(false, "[C11/full.never_ok] a strict prefix is never full-copy deserialized into a value"),
+                Err(deser::Error::ReadError) => {}
+                Err(e) => { core::mem::forget(e); assert!(false, "[C11/full.read_error] full-copy of a strict prefix returns a read error") }
+            };
+            let mut s = SliceWithPos { data: &pre[$pos0..], pos: $pos0 };
+            let re = <$t>::_deserialize_eps_inner(&mut s);
+            assert!(re.is_err(), "[C11/eps.never_ok] a strict prefix is never eps-copy deserialized into a value");
+            core::mem::forget(re);
+            kani::cover!(k + 1 == n, "[cover] cut just before the last byte reached");
+        }
+    };
+}
+// @h cut_vec_u32_p3 props=C11 tier=quick kind=bounded bound="len<=1" vars="v:Vec<u32> at stream offset 3 (1 padding byte, also when empty), every cut" allow="core::slice::index::slice_index_fail|index out of bounds|called `Result::unwrap\(\)` on an `Err` value" fns="deser/helpers.rs:deserialize_full_vec_zero,deser/helpers.rs:deserialize_eps_slice_zero"
+cut_at!(cut_vec_u32_p3, Vec<u32>, 1, 32, 17, 3);
